@@ -95,6 +95,23 @@ FAULTS = [
     ('a_garbled_line', '.org ' + 'b' * 40 + ' "'),
     ('a_garbled_line', '.byte ' + 'c' * 40 + ' ]'),
     ('a_garbled_line', 'ld8 ' + 'd' * 40 + ' ]'),
+    ('a_garbled_line', 'jrb {' + 'e' * 40),                     # closing brace dropped after a long word
+    ('a_garbled_line', 'jrb {' + 'f' * 36 + ' ]'),
+    ('a_garbled_line', 'jrn ' + 'g' * 40 + ' "'),
+    ('a_statement_no_variant_accepts', 'jrb {o0 + 8} ?? garbage'),   # text after the operand is not ignored
+    ('a_statement_no_variant_accepts', 'jrn o0 + 8 ?? garbage'),
+    ('a_statement_no_variant_accepts', 'jrn o0 + 7 ! zzz'),
+    ('a_statement_no_variant_accepts', 'jrb {o0 + 2}+100'),
+    ('a_value_its_field_cannot_hold', '.fill 0 - 2, 5'),         # a negative size
+    ('a_value_its_field_cannot_hold', '.zero 0 - 1'),
+    ('a_garbled_line', '#include "' + 'h' * 44),                # closing quote dropped after a long name
+    ('a_garbled_line', '#include "' + 'i' * 40 + "'"),
+    ('a_garbled_line', '#include "' + 'j' * 40 + '!x.asm"'),
+    ('a_garbled_line', '#include "lib/' + 'k' * 40),
+    ('a_garbled_line', '#create_memzone ' + 'k' * 44),
+    ('a_garbled_line', '#create_memzone ' + 'k' * 30 + ' $10 $'),
+    ('a_garbled_line', '#require "' + 'l' * 44),
+    ('a_garbled_line', '#require "' + 'l' * 30 + ' >= 1.'),
     ('a_garbled_line', '.org'),
     ('a_garbled_line', '.fill 3'),
     ('a_garbled_line', '.byte (1 + 2'),
